@@ -152,6 +152,20 @@ class H(common.Harness):
             sps.append(sp)
         self.cs, self.sps = cs, sps
         res = self.interp.call(self.R.resolve_citations, (cs,), {})
+        # history (C06 only): after resolving, the first numeric-page case citation is corrected through its
+        # public `groups` and the list is resolved again; the grouping must follow the new value
+        self.res2 = None
+        if self.params.get("history"):
+            for k, sp in enumerate(sps):
+                if sp.kind == "full_case" and not sp.placeholder and not sp.page_comma:
+                    newp = self.fresh("newpage")
+                    self.eng.add(newp >= 0)
+                    cs[k].groups["page"] = NumStr(newp)
+                    self.hist = (k, sp.page, newp)
+                    sp.page = newp
+                    self.res2 = self.interp.call(self.R.resolve_citations, (cs,), {})
+                    sp.page = self.hist[1]
+                    break
         pre = []
         if self.prefixes:
             for k in range(self.L):
@@ -171,10 +185,10 @@ class H(common.Harness):
                 return z3.BoolVal(False)
             return z3.And(a.vol == b.vol, a.crep == b.crep, a.page == b.page)
         if a.kind == "full_journal" and b.kind == "full_journal":
-            if a.placeholder != b.placeholder or a.page_numeric != b.page_numeric or a.page_comma != b.page_comma:
+            # a placeholder page ("1 Minn. L. Rev. ___") never identifies a document (statement of C06 / C16)
+            if a.placeholder or b.placeholder or a.page_numeric != b.page_numeric or a.page_comma != b.page_comma:
                 return z3.BoolVal(False)
-            base = z3.And(a.vol == b.vol, a.rep == b.rep)
-            return base if a.placeholder else z3.And(base, a.page == b.page)
+            return z3.And(a.vol == b.vol, a.rep == b.rep, a.page == b.page)
         if a.kind == "full_law" and b.kind == "full_law":
             return z3.And(a.vol == b.vol, a.rep == b.rep)
         return z3.BoolVal(False)
@@ -297,6 +311,21 @@ class H(common.Harness):
                     spec = self.same_doc(sps[a], sps[b])
                     conds.append(spec if same else z3.Not(spec))
         fs.append(self.check("C06:fulls_share_resource_iff_equal", z3.And(*conds) if conds else z3.BoolVal(True), self.witness))
+        if getattr(self, "res2", None) is not None:
+            k, oldp, newp = self.hist
+            sps[k].page = newp
+            where2 = {}
+            for gi, (key, vals) in enumerate(list(self.res2.items())):
+                for v in vals:
+                    where2[pos.get(id(v))] = gi
+            conds2 = []
+            for a in fulls:
+                for b in fulls:
+                    if a < b and a in where2 and b in where2:
+                        spec = self.same_doc(sps[a], sps[b])
+                        conds2.append(spec if where2[a] == where2[b] else z3.Not(spec))
+            sps[k].page = oldp
+            fs.append(self.check("C06:grouping_follows_corrected_page", z3.And(*conds2) if conds2 else z3.BoolVal(True), lambda m: {**self.witness(m), "corrected": {"index": k, "new_page": mval(m, newp)}}))
         # ---------------- C07: never guesses
         def first_full_of(gi):
             return pos[id(items[gi][1][0])]
@@ -468,6 +497,8 @@ def concrete_oracle(cs, w=None):
             if a.groups["page"] is None or b.groups["page"] is None:
                 return False
             return (a.groups.get("volume"), a.groups["page"], a.corrected_reporter()) == (b.groups.get("volume"), b.groups["page"], b.corrected_reporter())
+        if isinstance(a, M.FullJournalCitation) and (a.groups.get("page") is None or b.groups.get("page") is None):
+            return False  # placeholder page: equal only to itself
         return dict(a.groups) == dict(b.groups) and sorted(map(repr, a.all_editions)) == sorted(map(repr, b.all_editions))
 
     fulls = [i for i, c in enumerate(cs) if isinstance(c, M.FullCitation)]
@@ -571,6 +602,7 @@ def regression(rep, pid):
         "1 Minn. L. Rev. ___. Id. at 5.",
         "Foo v. Bar, 1 U.S. 1 (1999). Id. at 3. Smith v. Jones, 2 U.S. 5. Id. at 200. Bar, supra, at 4. 1 U.S., at 7.",
         "Foo v. Bar, 1 U.S. ___ (2020). Id. at 5. Id.",
+        "See 1 Minn. L. Rev. ___ (2020). Compare 1 Minn. L. Rev. ___ (2021).",
     ]
     for t in texts:
         rep.replays += 1
@@ -628,7 +660,7 @@ def run_property(rep, pid):
         "strip_punct: identity (names without punctuation)",
         "re.match('(?:at )?(\\\\d+)', pin_cite): None for a non-numeric pin cite, else group 1 = the leading number",
     ]
-    params = {"L": L, "optional_parties": not quick, "ref_fields": not quick}
+    params = {"L": L, "optional_parties": not quick, "ref_fields": not quick, "history": pid == "C06"}
     agg = common.explore_split("vf.harness.c06", params, depth=3 if quick else 4, timeout=6 * 3600)
     rep.merge_explore("resolve", agg)
     pref = CLAUSES[pid]
@@ -648,6 +680,28 @@ def run_property(rep, pid):
             continue
         w = f["witness"]
         rep.replays += 1
+        if f["clause"] == "C06:grouping_follows_corrected_page":
+            try:
+                from eyecite import resolve_citations as _rc
+
+                cs = build_concrete(w)
+                _rc(cs)
+                k = w["corrected"]["index"]
+                cs[k].groups["page"] = str(w["corrected"]["new_page"])
+                w2 = dict(w, citations=[dict(d, page=w["corrected"]["new_page"]) if i == k else d for i, d in enumerate(w["citations"])])
+                bad, groups = concrete_oracle(cs, w2)
+                bad = ["C06:grouping_follows_corrected_page"] if any(b.startswith("C06:fulls_share") for b in bad) else []
+            except Exception as ex:
+                rep.inconc(f"history replay failed for {w}: {ex!r}")
+                continue
+            if bad:
+                if "hist" not in seen:
+                    seen.add("hist")
+                    rep.violation(f"resolve_citations on {w['citations']}, then citation {k}'s page corrected to {w['corrected']['new_page']} and resolved again -> groups {groups}: the grouping does not follow the corrected value", {"kind": "history", "witness": w})
+            else:
+                rep.spurious += 1
+                rep.inconc(f"history model did not reproduce: {w}")
+            continue
         try:
             cs = build_concrete(w)
             bad, groups = concrete_oracle(cs, w)
